@@ -1,0 +1,406 @@
+//go:build verif
+
+package mgmt
+
+import (
+
+	"github.com/named-data/ndnd/fw/dispatch"
+	"github.com/named-data/ndnd/fw/fw"
+	"github.com/named-data/ndnd/fw/table"
+	enc "github.com/named-data/ndnd/std/encoding"
+	mgmt "github.com/named-data/ndnd/std/ndn/mgmt_2022"
+	spec "github.com/named-data/ndnd/std/ndn/spec_2022"
+)
+
+// Contracts for the gcv verifier (/verif); compiled only with build tag `verif`.
+// C17: management commands are authorised, act as specified; bad ones are refused safely.
+
+// ---------------------------------------------------------------------------------------
+// Ghost state
+// ---------------------------------------------------------------------------------------
+
+// Rigid ghost variables (never modified): the command being handled and the management thread handling it. Every
+// handler contract says "interest == verifCmd && manager == verifMgr"; the proofs hold for all values of them.
+var verifCmd *spec.Interest
+var verifMgr *Thread
+
+// Trace of state mutator calls: a counter plus the arguments of the last call.
+var verifMutCount int
+var verifMutKind int // 1 rib add, 2 rib remove, 3 fib insert, 4 fib remove, 5 set strategy, 6 unset strategy, 7 cs capacity, 8 face remove, 9 face setting
+var verifMutFace uint64
+var verifMutOrigin uint64
+var verifMutCost uint64
+var verifMutFlags uint64
+var verifMutCap int
+
+// Trace of responses: counter and status code of the last ControlResponse sent.
+var verifResponses int
+var verifStatus uint64
+
+// ---------------------------------------------------------------------------------------
+// Specification functions (from the property statement)
+// ---------------------------------------------------------------------------------------
+
+func forallIn(lo, hi int, f func(int) bool) bool {
+	for i := lo; i < hi; i++ {
+		if !f(i) {
+			return false
+		}
+	}
+	return true
+}
+
+// specIsPrefix: p is a prefix of n (component-wise equality of type and value).
+func specIsPrefix(p enc.Name, n enc.Name) bool {
+	return enc.SpecIsPrefix(p, n)
+}
+
+// specAuth: the command arrived under the local management prefix (/localhost/nfd; only local faces can use it: C09).
+func specAuth() bool {
+	return verifCmd != nil && verifMgr != nil && specIsPrefix(verifMgr.localPrefix, verifCmd.NameV)
+}
+
+// specAuthRib: RIB commands are also accepted under the link-local prefix when that is enabled.
+func specAuthRib() bool {
+	return verifCmd != nil && verifMgr != nil &&
+		(specIsPrefix(verifMgr.localPrefix, verifCmd.NameV) || (enableLocalhopManagement && specIsPrefix(verifMgr.nonLocalPrefix, verifCmd.NameV)))
+}
+
+// specCmd: what the dispatcher (*Thread).Run guarantees when it hands an Interest to a module: the name has at least
+// the module and verb components after the prefix, the thread is initialised.
+func specCmd(mgr *Thread, interest *spec.Interest) bool {
+	return mgr != nil && interest != nil && mgr == verifMgr && interest == verifCmd && mgr.transport != nil &&
+		len(interest.NameV) >= len(mgr.localPrefix)+2 && len(mgr.localPrefix) <= 16 && table.FibStrategyTable != nil
+}
+
+// specFwUp: the forwarding threads are registered (fw/executor start-up).
+func specFwUp() bool {
+	return fw.NumFwThreads == len(dispatch.FWDispatch) && forallIn(0, len(dispatch.FWDispatch), func(i int) bool { return dispatch.FWDispatch[i] != nil })
+}
+
+// specHasParams: the name is long enough to carry ControlParameters.
+func specHasParams(mgr *Thread, interest *spec.Interest) bool {
+	return len(interest.NameV) >= len(mgr.localPrefix)+3
+}
+
+// specFaceOr: FaceId absent or 0 means the requesting face.
+func specFaceOr(p *uint64, inFace uint64) uint64 {
+	if p != nil && *p != 0 {
+		return *p
+	}
+	return inFace
+}
+
+// specU64Or: an optional number with a default.
+func specU64Or(p *uint64, d uint64) uint64 {
+	if p != nil {
+		return *p
+	}
+	return d
+}
+
+const specOriginApp = 0       // route origin "app"
+const specFlagChildInherit = 1 // route flag "child-inherit"
+const specMinMTU = 128         // smallest MTU the link service can work with (C10)
+const specMaxCsCapacity = 1 << 32
+
+func specMgr(m Module) *Thread {
+	if v, ok := m.(*RIBModule); ok {
+		return v.manager
+	}
+	if v, ok := m.(*FIBModule); ok {
+		return v.manager
+	}
+	if v, ok := m.(*StrategyChoiceModule); ok {
+		return v.manager
+	}
+	if v, ok := m.(*ContentStoreModule); ok {
+		return v.manager
+	}
+	if v, ok := m.(*FaceModule); ok {
+		return v.manager
+	}
+	if v, ok := m.(*ForwarderStatusModule); ok {
+		return v.manager
+	}
+	return nil
+}
+
+var _ mgmt.ControlArgs
+
+// ---------------------------------------------------------------------------------------
+// Environment: state mutators. Authorisation is their PRECONDITION: every call site in fw/mgmt, present or added
+// later, carries the obligation "the command is under the local prefix". (Trusted: they only record ghost state;
+// their effect on the tables is the subject of C05/C06/C08.)
+// ---------------------------------------------------------------------------------------
+
+//@ func (*github.com/named-data/ndnd/fw/table.RibTable).AddEncRoute
+//@   trusted
+//@   requires specAuthRib() && route != nil
+//@   modifies verifMutCount, verifMutKind, verifMutFace, verifMutOrigin, verifMutCost, verifMutFlags
+//@   ensures verifMutCount == old(verifMutCount)+1 && verifMutKind == 1 && verifMutFace == route.FaceID && verifMutOrigin == route.Origin && verifMutCost == route.Cost && verifMutFlags == route.Flags
+
+//@ func (*github.com/named-data/ndnd/fw/table.RibTable).RemoveRouteEnc
+//@   trusted
+//@   requires specAuthRib()
+//@   modifies verifMutCount, verifMutKind, verifMutFace, verifMutOrigin
+//@   ensures verifMutCount == old(verifMutCount)+1 && verifMutKind == 2 && verifMutFace == faceID && verifMutOrigin == origin
+
+//@ func (github.com/named-data/ndnd/fw/table.FibStrategy).InsertNextHopEnc
+//@   requires specAuth()
+//@   modifies verifMutCount, verifMutKind, verifMutFace, verifMutCost
+//@   ensures verifMutCount == old(verifMutCount)+1 && verifMutKind == 3 && verifMutFace == nextHop && verifMutCost == cost
+
+//@ func (github.com/named-data/ndnd/fw/table.FibStrategy).RemoveNextHopEnc
+//@   requires specAuth()
+//@   modifies verifMutCount, verifMutKind, verifMutFace
+//@   ensures verifMutCount == old(verifMutCount)+1 && verifMutKind == 4 && verifMutFace == nextHop
+
+//@ func (github.com/named-data/ndnd/fw/table.FibStrategy).SetStrategyEnc
+//@   requires specAuth()
+//@   requires len(strategy) >= 1
+//@   modifies verifMutCount, verifMutKind
+//@   ensures verifMutCount == old(verifMutCount)+1 && verifMutKind == 5
+
+//@ func (github.com/named-data/ndnd/fw/table.FibStrategy).UnSetStrategyEnc
+//@   requires specAuth() && len(name) >= 1
+//@   modifies verifMutCount, verifMutKind
+//@   ensures verifMutCount == old(verifMutCount)+1 && verifMutKind == 6
+
+//@ func github.com/named-data/ndnd/fw/table.SetCsCapacity
+//@   trusted
+//@   requires specAuth() && 0 <= capacity && capacity <= specMaxCsCapacity
+//@   modifies verifMutCount, verifMutKind, verifMutCap
+//@   ensures verifMutCount == old(verifMutCount)+1 && verifMutKind == 7 && verifMutCap == capacity
+
+//@ func (*github.com/named-data/ndnd/fw/face.Table).Remove
+//@   trusted
+//@   requires specAuth()
+//@   modifies verifMutCount, verifMutKind, verifMutFace
+//@   ensures verifMutCount == old(verifMutCount)+1 && verifMutKind == 8 && verifMutFace == id
+
+// (*face.Table).Get: result arbitrary (any face or nil), no effect (the table is a sync.Map of LinkService values).
+//
+//@ func (*github.com/named-data/ndnd/fw/face.Table).Get
+//@   trusted
+
+// Face settings: SetMTU carries the transport invariant needed by sendPacket (C10): MTU >= specMinMTU.
+//
+//@ func (github.com/named-data/ndnd/fw/face.LinkService).SetMTU
+//@   requires specAuth() && mtu >= specMinMTU
+//@   modifies verifMutCount, verifMutKind
+//@   ensures verifMutCount == old(verifMutCount)+1 && verifMutKind == 9
+
+//@ func (github.com/named-data/ndnd/fw/face.LinkService).SetPersistency
+//@   requires specAuth()
+//@   modifies verifMutCount, verifMutKind
+//@   ensures verifMutCount == old(verifMutCount)+1 && verifMutKind == 9
+
+// ---------------------------------------------------------------------------------------
+// Environment: responses, name prefix test, parameter decoding
+// ---------------------------------------------------------------------------------------
+
+// The response dictionaries built by the handlers use only ControlArgs field names with values of the right type, so
+// DictToControlArgs succeeds (assumed; it is reflection-free table lookup in std/ndn/mgmt_2022).
+//
+//@ func makeControlResponse
+//@   trusted
+//@   ensures result != nil && fresh(result) && result.Val != nil && result.Val.StatusCode == statusCode
+
+//@ func (*Thread).sendResponse
+//@   trusted
+//@   requires response != nil && response.Val != nil && interest != nil && m.transport != nil
+//@   modifies verifResponses, verifStatus
+//@   ensures verifResponses == old(verifResponses)+1 && verifStatus == response.Val.StatusCode
+
+//@ func (*Thread).prefixLength
+//@   ensures result == len(m.localPrefix)
+
+// (enc.Name).IsPrefix: verified in std/encoding/zz_verif_order.go against enc.specIsPrefix
+
+// A-FRESH: the TLV parser allocates what it returns: the decoded Strategy name does not share its backing array with
+// the command name or the management prefix (so appending the default version to it cannot change them).
+//
+//@ func lemmaParamsSeparate
+//@   trusted
+//@   requires p != nil && p.Strategy != nil && verifCmd != nil && verifMgr != nil
+//@   ensures sliceArr(p.Strategy.Name) != sliceArr(verifCmd.NameV) && sliceArr(p.Strategy.Name) != sliceArr(verifMgr.localPrefix)
+func lemmaParamsSeparate(p *mgmt.ControlArgs) {}
+
+// Never panics for any name that has a parameters component; on success the result is a fresh ControlArgs.
+//
+//@ func decodeControlParameters
+//@   dyn m in {*RIBModule, *FIBModule, *StrategyChoiceModule, *ContentStoreModule, *FaceModule, *ForwarderStatusModule}
+//@   requires interest != nil && specMgr(m) != nil && len(interest.NameV) >= len(specMgr(m).localPrefix)+3 && len(specMgr(m).localPrefix) <= 16
+
+// Table read accessors and the Data encoder (environment, trusted): collections hold no nil elements; MakeData
+// returns a value unless it returns an error.
+//
+//@ func (github.com/named-data/ndnd/fw/table.FibStrategy).GetAllFIBEntries
+//@   ensures forallIn(0, len(result), func(i int) bool { return result[i] != nil })
+
+//@ func (github.com/named-data/ndnd/fw/table.FibStrategy).GetAllForwardingStrategies
+//@   ensures forallIn(0, len(result), func(i int) bool { return result[i] != nil })
+
+//@ func (github.com/named-data/ndnd/fw/table.FibStrategyEntry).GetNextHops
+//@   ensures forallIn(0, len(result), func(i int) bool { return result[i] != nil })
+
+//@ func (*github.com/named-data/ndnd/fw/table.RibTable).GetAllEntries
+//@   trusted
+//@   ensures forallIn(0, len(result), func(i int) bool { return result[i] != nil })
+
+//@ func (*github.com/named-data/ndnd/fw/table.RibEntry).GetRoutes
+//@   trusted
+//@   pure
+//@   ensures forallIn(0, len(result), func(i int) bool { return result[i] != nil })
+
+// (spec.Spec).MakeData: verified in std/ndn/spec_2022/zz_verif_make.go (returns a value unless it returns an error)
+
+// ---------------------------------------------------------------------------------------
+// RIB module
+// ---------------------------------------------------------------------------------------
+
+// The dispatcher must establish the authorisation its verbs need (FAILS: RIB has no prefix test at all).
+//
+//@ func (*RIBModule).handleIncomingInterest
+//@   requires specCmd(r.manager, interest)
+//@   modifies verifResponses, verifStatus, verifMutCount, verifMutKind, verifMutFace, verifMutOrigin, verifMutCost, verifMutFlags, r.nextRIBDatasetVersion
+//@   ensures !specAuthRib() ==> verifMutCount == old(verifMutCount)
+//@   assert before prefixLength@1 [guard] specIsPrefix(r.manager.localPrefix, interest.NameV) || (enableLocalhopManagement && specIsPrefix(r.manager.nonLocalPrefix, interest.NameV))
+//@   assert before prefixLength@1 [auth] specAuthRib()
+
+//@ func (*RIBModule).register
+//@   requires specCmd(r.manager, interest) && specAuthRib()
+//@   modifies verifResponses, verifStatus, verifMutCount, verifMutKind, verifMutFace, verifMutOrigin, verifMutCost, verifMutFlags
+//@   ensures [resp] verifResponses == old(verifResponses)+1
+//@   ensures [ok] verifStatus == 200 ==> verifMutCount == old(verifMutCount)+1 && verifMutKind == 1
+//@   ensures [refuse] verifStatus != 200 ==> verifMutCount == old(verifMutCount)
+//@   assert before AddEncRoute@1 [effect] faceID == specFaceOr(params.FaceId, inFace) && origin == specU64Or(params.Origin, specOriginApp) && cost == specU64Or(params.Cost, 0) && flags == specU64Or(params.Flags, specFlagChildInherit)
+
+//@ func (*RIBModule).unregister
+//@   requires specCmd(r.manager, interest) && specAuthRib()
+//@   modifies verifResponses, verifStatus, verifMutCount, verifMutKind, verifMutFace, verifMutOrigin
+//@   ensures [resp] verifResponses == old(verifResponses)+1
+//@   ensures [ok] verifStatus == 200 ==> verifMutCount == old(verifMutCount)+1 && verifMutKind == 2
+//@   ensures [refuse] verifStatus != 200 ==> verifMutCount == old(verifMutCount)
+//@   assert before RemoveRouteEnc@1 [effect] faceID == specFaceOr(params.FaceId, inFace) && origin == specU64Or(params.Origin, specOriginApp)
+
+//@ func (*RIBModule).announce
+//@   requires specCmd(r.manager, interest)
+//@   modifies verifResponses, verifStatus
+//@   ensures verifResponses == old(verifResponses)+1 && verifStatus != 200
+
+//@ func (*RIBModule).list
+//@   requires specCmd(r.manager, interest)
+//@   modifies r.nextRIBDatasetVersion
+
+// ---------------------------------------------------------------------------------------
+// FIB module
+// ---------------------------------------------------------------------------------------
+
+//@ func (*FIBModule).handleIncomingInterest
+//@   requires specCmd(f.manager, interest)
+//@   modifies verifResponses, verifStatus, verifMutCount, verifMutKind, verifMutFace, verifMutCost, f.nextFIBDatasetVersion
+//@   ensures !specAuth() ==> verifMutCount == old(verifMutCount) && verifResponses == old(verifResponses)
+//@   assert before prefixLength@1 [auth] specAuth()
+
+//@ func (*FIBModule).add
+//@   requires specCmd(f.manager, interest) && specAuth()
+//@   modifies verifResponses, verifStatus, verifMutCount, verifMutKind, verifMutFace, verifMutCost
+//@   ensures [resp] verifResponses == old(verifResponses)+1
+//@   ensures [ok] verifStatus == 200 ==> verifMutCount == old(verifMutCount)+1 && verifMutKind == 3
+//@   ensures [refuse] verifStatus != 200 ==> verifMutCount == old(verifMutCount)
+//@   assert before FibStrategyTable.InsertNextHopEnc@1 [effect] faceID == specFaceOr(params.FaceId, inFace) && cost == specU64Or(params.Cost, 0)
+
+//@ func (*FIBModule).remove
+//@   requires specCmd(f.manager, interest) && specAuth()
+//@   modifies verifResponses, verifStatus, verifMutCount, verifMutKind, verifMutFace
+//@   ensures [resp] verifResponses == old(verifResponses)+1
+//@   ensures [ok] verifStatus == 200 ==> verifMutCount == old(verifMutCount)+1 && verifMutKind == 4
+//@   ensures [refuse] verifStatus != 200 ==> verifMutCount == old(verifMutCount)
+//@   assert before FibStrategyTable.RemoveNextHopEnc@1 [effect] faceID == specFaceOr(params.FaceId, inFace)
+
+//@ func (*FIBModule).list
+//@   requires specCmd(f.manager, interest)
+//@   modifies f.nextFIBDatasetVersion
+
+// ---------------------------------------------------------------------------------------
+// Strategy-choice module
+// ---------------------------------------------------------------------------------------
+
+//@ func (*StrategyChoiceModule).handleIncomingInterest
+//@   requires specCmd(s.manager, interest)
+//@   modifies verifResponses, verifStatus, verifMutCount, verifMutKind, s.nextStrategyDatasetVersion, all(mgmt.Strategy.Name)
+//@   ensures !specAuth() ==> verifMutCount == old(verifMutCount) && verifResponses == old(verifResponses)
+//@   assert before prefixLength@1 [auth] specAuth()
+
+// A strategy name must have a strategy component after the strategy prefix (FAILS: #idx when the name equals the prefix).
+//
+//@ func (*StrategyChoiceModule).set
+//@   requires specCmd(s.manager, interest) && specAuth()
+//@   assume forall(func(k string) bool { return mapHas(fw.StrategyVersions, k) ==> len(fw.StrategyVersions[k]) > 0 })
+//@   modifies verifResponses, verifStatus, verifMutCount, verifMutKind, all(mgmt.Strategy.Name)
+//@   assert before NewVersionComponent@1 uses lemmaParamsSeparate(params) [sep] params.Strategy != nil && specAuth()
+//@   ensures [resp] verifResponses == old(verifResponses)+1
+//@   ensures [ok] verifStatus == 200 ==> verifMutCount == old(verifMutCount)+1 && verifMutKind == 5
+//@   ensures [refuse] verifStatus != 200 ==> verifMutCount == old(verifMutCount)
+
+//@ func (*StrategyChoiceModule).unset
+//@   requires specCmd(s.manager, interest) && specAuth()
+//@   modifies verifResponses, verifStatus, verifMutCount, verifMutKind
+//@   ensures [resp] verifResponses == old(verifResponses)+1
+//@   ensures [ok] verifStatus == 200 ==> verifMutCount == old(verifMutCount)+1 && verifMutKind == 6
+//@   ensures [refuse] verifStatus != 200 ==> verifMutCount == old(verifMutCount)
+
+//@ func (*StrategyChoiceModule).list
+//@   requires specCmd(s.manager, interest)
+//@   modifies s.nextStrategyDatasetVersion
+
+// ---------------------------------------------------------------------------------------
+// Content-store module
+// ---------------------------------------------------------------------------------------
+
+//@ func (*ContentStoreModule).handleIncomingInterest
+//@   requires specCmd(c.manager, interest) && specFwUp()
+//@   modifies verifResponses, verifStatus, verifMutCount, verifMutKind, verifMutCap, c.nextDatasetVersion
+//@   ensures !specAuth() ==> verifMutCount == old(verifMutCount) && verifResponses == old(verifResponses)
+//@   assert before prefixLength@1 [auth] specAuth()
+
+// The capacity must be in range (FAILS: any uint64 is cast to int and installed).
+//
+//@ func (*ContentStoreModule).config
+//@   requires specCmd(c.manager, interest) && specAuth()
+//@   modifies verifResponses, verifStatus, verifMutCount, verifMutKind, verifMutCap
+//@   ensures [resp] verifResponses == old(verifResponses)+1
+//@   ensures [refuse] verifStatus != 200 ==> verifMutCount == old(verifMutCount)
+
+//@ func (*ContentStoreModule).info
+//@   requires specCmd(c.manager, interest) && specFwUp()
+//@   loop 1 invariant 0 <= threadID && status.CsInfo != nil
+//@   modifies c.nextDatasetVersion
+
+// ---------------------------------------------------------------------------------------
+// Face module
+// ---------------------------------------------------------------------------------------
+
+//@ func (*FaceModule).handleIncomingInterest
+//@   requires specCmd(f.manager, interest)
+//@   modifies verifResponses, verifStatus, verifMutCount, verifMutKind, verifMutFace, f.nextFaceDatasetVersion
+//@   ensures !specAuth() ==> verifMutCount == old(verifMutCount) && verifResponses == old(verifResponses)
+//@   assert before prefixLength@1 [auth] specAuth()
+
+//@ func (*FaceModule).destroy
+//@   requires specCmd(f.manager, interest) && specAuth()
+//@   modifies verifResponses, verifStatus, verifMutCount, verifMutKind, verifMutFace
+//@   ensures [resp] verifResponses == old(verifResponses)+1
+//@   ensures [refuse] verifStatus != 200 ==> verifMutCount == old(verifMutCount)
+//@   ensures [ok] verifMutCount != old(verifMutCount) ==> verifMutKind == 8
+
+// MTU too small to carry a packet must be refused (FAILS: any MTU is installed); a face that is not an NDNLP link
+// service must not crash the daemon (type assertion).
+//
+//@ func (*FaceModule).update
+//@   requires specCmd(f.manager, interest) && specAuth()
+//@   modifies verifResponses, verifStatus, verifMutCount, verifMutKind
+//@   ensures [resp] verifResponses == old(verifResponses)+1
+//@   ensures [refuse] verifStatus != 200 ==> verifMutCount == old(verifMutCount)
